@@ -248,7 +248,11 @@ def _r3(chk: Check) -> None:
                 elif e.kind == 'aug_name' and e.op in ('+', '*', '|', '&', '-', '^'):
                     r = _value_root(e.cur, roots)
                     if r is not None:
-                        problems.append('`%s` may update the value `%s` produced in place' % (e.text(), show(r)))
+                        # load / update in place / store back under the same name is what `name op= value` means
+                        written_back = isinstance(r, tuple) and r[:1] == ('sub',) and any(
+                            x.kind == 'store_sub' and freeze(x.obj) == r[1] and freeze(x.index) == r[2] and x.eid > e.eid for x in p.events)
+                        if not written_back:
+                            problems.append('`%s` may update the value `%s` produced in place' % (e.text(), show(r)))
                 elif e.kind == 'call' and not e.d.get('inlined'):
                     f = freeze(e.func)
                     if isinstance(f, tuple) and f and f[0] == 'attr' and f[2] in MUTATING_METHODS and not e.d.get('on_fresh_list'):
